@@ -183,6 +183,13 @@ def _task(args):
             from checks import sweep
             for seed in payload:
                 sweep.sweep_history(prop, seed, agg, opts)
+        elif kind == "canary":
+            from selftest import canaries
+            cls = canaries.by_name(opts["canary"])
+            for seed in payload:
+                rec = generate(prop, seed, opts.get("profile"))
+                w = run_record(rec, canary=cls())
+                agg.add_world(w)
         elif kind == "digests":
             out = []
             for seed in payload:
